@@ -50,7 +50,12 @@ META = {
         "with the matching refdomain; for refdomain='doc' reftarget derives from path2doc and reftargetid from the part "
         "after '#'; relfn2path receives the part before '#'; a non-doc reference keeps the whole destination (fragment "
         "included); every href-derived value that reaches reftarget/reftargetid/relfn2path has passed normalizeLinkText "
-        "(flow-sensitive reaching definitions), because markdown-it percent-encodes hrefs and the registries are keyed by decoded text."
+        "(flow-sensitive reaching definitions), because markdown-it percent-encodes hrefs and the registries are keyed by decoded text. "
+        "R3 also: log_warning leaves without emitting only after a nitpick_ignore(_regex) match for the target. "
+        "R6: the 'path:'/'project:' scheme is removed from a destination by an exact prefix removal (slice offset equals the length of the "
+        "prefix tested by the guarding startswith(); no character-set strip containing name characters). "
+        "R7: the table of document-local targets that ResolveAnchorIds consults before handing a '#name' link to project-wide "
+        "resolution is filled only under a truthy document.nametypes value (explicit targets), as Sphinx's StandardDomain.process_doc does."
     ),
     "not_decided": (
         "URI correctness as a value (make_refnode/get_relative_uri, relfn2path and path2doc are Sphinx functions evaluated at "
@@ -1154,6 +1159,67 @@ def _judge_paths(rep: Report, rule_id: str, fi: FunctionInfo, en: Enumerator, re
                 )
 
 
+def _mentions_nitpick(corpus: Corpus, fi: FunctionInfo, e: ast.AST, depth: int = 0) -> bool:
+    """Does the test consult the nitpick_ignore / nitpick_ignore_regex configuration (through locals and one helper level)?"""
+    if depth > 3:
+        return False
+    for x in ast.walk(e):
+        if isinstance(x, ast.Attribute) and x.attr.startswith("nitpick_ignore"):
+            return True
+        if isinstance(x, ast.Name) and isinstance(x.ctx, ast.Load):
+            defs = assignments_to(fi, x.id)
+            if len(defs) == 1 and defs[0][2] is None and not isinstance(defs[0][1], ast.Name) and _mentions_nitpick(corpus, fi, defs[0][1], depth + 1):
+                return True
+        if isinstance(x, ast.Call):
+            callee = self_callee(corpus, fi, x)
+            if callee is not None and not callee.is_lambda and any(isinstance(y, ast.Attribute) and y.attr.startswith("nitpick_ignore") for y in callee.local_nodes()):
+                return True
+    return False
+
+
+def _emission_unless_ignored(corpus: Corpus, rep: Report) -> None:
+    """log_warning: the only reason not to emit is a nitpick_ignore(_regex) match for this target.
+    (A suppression that depends on anything else - a memo of earlier answers, a flag, the target being falsy -
+    makes "exactly one warning" depend on history or on the spelling of the link.)"""
+    fi = corpus.func(RESOLVER + ".log_warning")
+    rep.saw_function(fi.fq)
+    cfg = get_cfg(fi)
+    emits = [n for n in cfg.nodes if isinstance(n, ast.AST) and any(isinstance(c.func, ast.Attribute) and c.func.attr in ("warning", "warn", "log") and any(k.arg in ("type", "subtype") for k in c.keywords) for c in node_calls(n))]
+    if not emits:
+        raise Unsupported("log_warning: no LOGGER.warning(..., type=, subtype=) emission found")
+
+    def match_edge(n) -> bool:
+        if not (isinstance(n, tuple) and n[0] in ("T", "F") and isinstance(n[1], (ast.If, ast.While))):
+            return False
+        for e, pol in facts(n[1].test, n[0] == "T"):
+            if not pol or isinstance(e, (ast.Attribute, ast.Constant)):
+                continue  # a bare `self.config.nitpick_ignore` truthiness test is not a match
+            if isinstance(e, ast.Name):
+                defs = assignments_to(fi, e.id)
+                if not (len(defs) == 1 and defs[0][2] is None and not isinstance(defs[0][1], (ast.Attribute, ast.Name))):
+                    continue
+            if _mentions_nitpick(corpus, fi, e):
+                return True
+        return False
+
+    n_inst = 0
+    for stop in cfg.pred.get(EXIT, []):
+        st = stop[1] if isinstance(stop, tuple) else stop
+        k = f"{fi.fq}|exit {_stop_key(cfg, stop)}|suppressed only on a nitpick_ignore match"
+        site = fi.module.site(st)
+        n_inst += 1
+        if any(stop is e for e in emits):
+            rep.ok("C12.R3", k, site, "the emission itself")
+            continue
+        silent = cfg.paths_avoiding(ENTRY, stop, lambda n: any(n is e for e in emits) or match_edge(n))
+        if silent and not match_edge(stop):
+            rep.violation("C12.R3", k, site, f"log_warning can leave through `{short(st, 50)}` without emitting and without a nitpick_ignore / nitpick_ignore_regex match for this target: whether an unresolvable link warns then depends on something else than (target, configuration)")
+        else:
+            rep.ok("C12.R3", k, site, "reached only after the emission or a nitpick match")
+    if n_inst < 2:
+        rep.error("C12.R3", "log_warning: fewer than 2 exits (two nitpick returns + the emission on the pinned tree)")
+
+
 @rule("C12.R3")
 def r3_exactly_one_warning(corpus: Corpus, rep: Report, tier: str):
     rep.rule("C12.R3", "failing paths pass exactly one XREF_MISSING warning naming the target, other paths none; the replacement keeps the text subtree")
@@ -1176,6 +1242,7 @@ def r3_exactly_one_warning(corpus: Corpus, rep: Report, tier: str):
             raise Unsupported(f"no path through {callee.qualname}")
         _judge_paths(rep, "C12.R3", callee, en2, res2, text_rule=True, failing_of=cls_of, label="resolver")
         rep.saw_function(callee.fq)
+    _emission_unless_ignored(corpus, rep)
     # every XREF_MISSING log_warning in the resolver names its target
     n_w = 0
     for m in sh.cls.methods.values():
@@ -1939,7 +2006,185 @@ def r5_writer_reader_agreement(corpus: Corpus, rep: Report, tier: str):
     rep.expect_min("C12.R5", 26, "4 writers x required attributes + value roles + relfn2path + decoded href values")
 
 
-RULES = [r1_classification_totality, r2_resolver_totality, r3_exactly_one_warning, r4_from_to_roles, r5_writer_reader_agreement]
+# ---------------------------------------------------------------------------
+# R6 scheme prefix removal is exact
+
+
+def _const_str(fi: FunctionInfo, e: ast.AST | None, depth: int = 0) -> str | None:
+    if isinstance(e, ast.Constant) and isinstance(e.value, str):
+        return e.value
+    if isinstance(e, ast.Name) and depth < 3:
+        defs = assignments_to(fi, e.id)
+        if len(defs) == 1 and defs[0][2] is None:
+            return _const_str(fi, defs[0][1], depth + 1)
+        if not defs and e.id in fi.module.const_nodes:
+            try:
+                v = fi.module.const(e.id)
+            except Exception:
+                return None
+            return v if isinstance(v, str) else None
+    return None
+
+
+def _const_int(fi: FunctionInfo, e: ast.AST | None, depth: int = 0) -> int | None:
+    if isinstance(e, ast.Constant) and isinstance(e.value, int) and not isinstance(e.value, bool):
+        return e.value
+    if isinstance(e, ast.Call) and isinstance(e.func, ast.Name) and e.func.id == "len" and len(e.args) == 1:
+        v = _const_str(fi, e.args[0])
+        return len(v) if v is not None else None
+    if isinstance(e, ast.Name) and depth < 3:
+        defs = assignments_to(fi, e.id)
+        if len(defs) == 1 and defs[0][2] is None:
+            return _const_int(fi, defs[0][1], depth + 1)
+    return None
+
+
+def _startswith_guard(cfg: CFG, node: ast.AST, recv: str) -> list[str]:
+    out = []
+    for t, pol in all_guards(cfg, node):
+        if pol and isinstance(t, ast.Call) and isinstance(t.func, ast.Attribute) and t.func.attr == "startswith" and unparse(t.func.value) == recv and len(t.args) == 1:
+            v = _const_str(cfg.fi, t.args[0])
+            if v is not None:
+                out.append(v)
+    return out
+
+
+@rule("C12.R6")
+def r6_prefix_removal_exact(corpus: Corpus, rep: Report, tier: str):
+    rep.rule("C12.R6", "removing the 'path:' / 'project:' scheme from a destination removes exactly that prefix (slice offset = length of the tested prefix; no character-set strip)")
+    funcs = [m for m in corpus.cls(SPHINX_R).methods.values()] + [m for nm, m in corpus.cls(BASE_R).methods.items() if nm.startswith("render_link")]
+    n = 0
+    for fi in funcs:
+        cfg = get_cfg(fi)
+        for x in fi.local_nodes():
+            recv = None
+            kind = None
+            if isinstance(x, ast.Subscript) and isinstance(x.slice, ast.Slice) and isinstance(x.ctx, ast.Load) and x.slice.upper is None and x.slice.step is None and (_const_int(fi, x.slice.lower) or 0) > 0:
+                recv, kind = x.value, "slice"
+            elif isinstance(x, ast.Call) and isinstance(x.func, ast.Attribute) and x.func.attr in ("lstrip", "strip", "rstrip", "removeprefix") and len(x.args) == 1 and _const_str(fi, x.args[0]) is not None:
+                recv, kind = x.func.value, x.func.attr
+            if recv is None:
+                continue
+            try:
+                at = cfg.stmt_of(x)
+            except Unsupported:
+                continue
+            if not _encoding(fi, recv, at):
+                continue  # not a link destination
+            n += 1
+            rep.saw_function(fi.fq)
+            site = fi.module.site(x)
+            if kind == "slice":
+                off = _const_int(fi, x.slice.lower)
+                prefixes = _startswith_guard(cfg, x, unparse(recv))
+                k = f"{fi.fq}|{unparse(recv)}[N:]|offset equals the tested prefix"
+                if not prefixes:
+                    rep.listed("C12.R6", k, site, f"`{short(x, 40)}` is not under a startswith() test of the same value: offset not judged")
+                elif any(len(p) == off for p in prefixes):
+                    rep.ok("C12.R6", k, site, f"startswith({prefixes[0]!r}) and [{off}:]")
+                else:
+                    rep.violation("C12.R6", k, site, f"`{short(x, 40)}` removes {off} characters under `startswith({prefixes[0]!r})` (length {len(prefixes[0])}): the destination keeps part of the scheme or loses its first character(s)")
+            elif kind == "removeprefix":
+                rep.ok("C12.R6", f"{fi.fq}|{unparse(recv)}.removeprefix({_const_str(fi, x.args[0])!r})", site, "exact prefix removal")
+            else:
+                chars = set(_const_str(fi, x.args[0]))
+                k = f"{fi.fq}|{unparse(recv)}.{kind}({_const_str(fi, x.args[0])!r})|not a character-set strip of name characters"
+                if len(chars) > 1 and any(c.isalnum() for c in chars):
+                    rep.violation("C12.R6", k, site, f"`{short(x, 50)}` strips every leading/trailing character out of the set {sorted(chars)} - it is not a prefix removal: a destination such as 'path:assets/x' or 'thumb.png' loses the beginning of its file name")
+                else:
+                    rep.ok("C12.R6", k, site, "strips separators/whitespace only")
+    rep.expect_min("C12.R6", 2, "project: in both back ends, path: in the Sphinx back end (3 on the pinned tree)")
+
+
+# ---------------------------------------------------------------------------
+# R7 the document-local '#' table that pre-empts project-wide resolution holds explicit targets only
+
+
+def _from_nametypes(fi: FunctionInfo, e: ast.expr, store: ast.AST, depth: int = 0) -> bool:
+    """Does the (truthy) expression say "this name is an explicit target" - i.e. is it a value of document.nametypes?"""
+    if depth > 4:
+        return False
+    if isinstance(e, ast.Subscript) and isinstance(e.value, ast.Attribute) and e.value.attr == "nametypes":
+        return True
+    if isinstance(e, ast.Call) and isinstance(e.func, ast.Attribute) and e.func.attr == "get" and isinstance(e.func.value, ast.Attribute) and e.func.value.attr == "nametypes":
+        return True
+    if isinstance(e, ast.Name):
+        for st, val, pos in assignments_to(fi, e.id):
+            if pos == "iter":
+                # loop target: for NAME, FLAG in <doc>.nametypes.items()
+                loop = st if isinstance(st, ast.For) else None
+                it = val
+                if isinstance(it, ast.Call) and isinstance(it.func, ast.Attribute) and it.func.attr == "items" and isinstance(it.func.value, ast.Attribute) and it.func.value.attr == "nametypes":
+                    tg = loop.target if loop is not None else None
+                    if isinstance(tg, ast.Tuple) and len(tg.elts) == 2 and isinstance(tg.elts[1], ast.Name) and tg.elts[1].id == e.id:
+                        return True
+            elif pos is None and _from_nametypes(fi, val, store, depth + 1):
+                return True
+    return False
+
+
+@rule("C12.R7")
+def r7_local_table_explicit_only(corpus: Corpus, rep: Report, tier: str):
+    rep.rule("C12.R7", "the table of local targets that ResolveAnchorIds consults before handing a '#name' link to project-wide resolution is filled under a `nametypes[name]` (explicit target) guard only")
+    fi = corpus.func("mdit_to_docutils.transforms:ResolveAnchorIds.apply")
+    rep.saw_function(fi.fq)
+    cfg = get_cfg(fi)
+    xrefs = [c for c in fi.local_nodes() if isinstance(c, ast.Call) and fi.module.resolve(dotted(c.func) or "") == "sphinx.addnodes.pending_xref"]
+    if not xrefs:
+        raise Unsupported("ResolveAnchorIds.apply: no pending_xref hand-off found")
+    # tables consulted with `in` inside the loop that contains the hand-off, and filled in this function
+    loop = None
+    x = parent(xrefs[0])
+    while x is not None:
+        if isinstance(x, ast.For):
+            loop = x
+            break
+        x = parent(x)
+    if loop is None:
+        raise Unsupported("ResolveAnchorIds.apply: hand-off is not inside the link loop")
+    tables = set()
+    for n in ast.walk(loop):
+        if isinstance(n, ast.Compare) and len(n.ops) == 1 and isinstance(n.ops[0], (ast.In, ast.NotIn)) and isinstance(n.comparators[0], ast.Name):
+            tables.add(n.comparators[0].id)
+    stores = [n for n in fi.local_nodes() if isinstance(n, ast.Subscript) and isinstance(n.ctx, ast.Store) and isinstance(n.value, ast.Name) and n.value.id in tables]
+    stores += [c for c in fi.local_nodes() if isinstance(c, ast.Call) and isinstance(c.func, ast.Attribute) and c.func.attr in ("setdefault", "update") and isinstance(c.func.value, ast.Name) and c.func.value.id in tables]
+    n_judged = 0
+    for st in stores:
+        tname = st.value.id if isinstance(st, ast.Subscript) else st.func.value.id
+        k = f"{fi.fq}|{tname}[...] = ...|only for explicit targets"
+        site = fi.module.site(st)
+        gs = all_guards(cfg, st)
+        n_judged += 1
+        if any(pol and _from_nametypes(fi, t, st) for t, pol in gs):
+            rep.ok("C12.R7", k, site, "dominated by a truthy document.nametypes value")
+            continue
+        if any((not pol) and _from_nametypes(fi, t, st) for t, pol in gs):
+            rep.violation("C12.R7", k, site, f"`{short(parent(st), 50)}` is reached only for names whose nametypes flag is FALSE: the local table holds the implicit names instead of the explicit targets")
+            continue
+        # a filter inside the iterated expression (comprehension over nametypes) is a guard too
+        filt = False
+        x = parent(st)
+        while x is not None and x is not fi.node:
+            if isinstance(x, ast.For):
+                for c in ast.walk(x.iter):
+                    if isinstance(c, ast.comprehension) and any(isinstance(a, ast.Attribute) and a.attr == "nametypes" for a in ast.walk(c.iter)) and c.ifs:
+                        filt = True
+            x = parent(x)
+        if filt:
+            rep.ok("C12.R7", k, site, "iterates a filtered view of document.nametypes")
+            continue
+        rep.violation(
+            "C12.R7",
+            k,
+            site,
+            f"`{short(parent(st), 50)}` fills the table of local '#' targets without a `document.nametypes[name]` (explicit target) guard: implicit heading names pre-empt project-wide labels of the same name and un-anchored headings become '#' targets (Sphinx's StandardDomain.process_doc skips `not explicit` names)",
+        )
+    if n_judged == 0:
+        raise Unsupported("ResolveAnchorIds.apply: no local target table filled in the function")
+    rep.expect_min("C12.R7", 1, "explicit[name] = (labelid, implicit_title)")
+
+
+RULES = [r1_classification_totality, r2_resolver_totality, r3_exactly_one_warning, r4_from_to_roles, r5_writer_reader_agreement, r6_prefix_removal_exact, r7_local_table_explicit_only]
 
 
 # ---------------------------------------------------------------------------
@@ -2106,4 +2351,38 @@ def mutants(corpus: Corpus):
     f = rf.func("MystReferenceResolver._resolve_myst_ref_intersphinx")
     t = find_node(f, lambda n: isinstance(n, ast.Compare) and isinstance(n.ops[0], ast.In) and isinstance(n.left, ast.Constant) and n.left.value == "reftitle")
     add("c12-reftitle-read-unguarded", "C12.R5", rf, t, 'node.get("refexplicit")', expect="sets reftitle")
+    # --- round-2 seed classes ---
+    # R6: scheme prefix removal
+    f = sx.func("SphinxRenderer.render_link_path")
+    sl = find_node(f, lambda n: isinstance(n, ast.Subscript) and isinstance(n.slice, ast.Slice) and isinstance(n.slice.lower, ast.Constant) and n.slice.lower.value == 5)
+    add("c12-path-scheme-lstrip", "C12.R6", sx, sl, f'{unparse(sl.value)}.lstrip("path:")' if sl is not None else "", expect="character-set strip")
+    add("c12-path-scheme-offset-short", "C12.R6", sx, sl, f"{unparse(sl.value)}[4:]" if sl is not None else "", expect="offset equals")
+    bs = corpus.mod("mdit_to_docutils.base")
+    f = bs.func("DocutilsRenderer.render_link_project")
+    sl = find_node(f, lambda n: isinstance(n, ast.Subscript) and isinstance(n.slice, ast.Slice) and isinstance(n.slice.lower, ast.Constant) and n.slice.lower.value == 8)
+    add("c12-project-scheme-offset-docutils", "C12.R6", bs, sl, f"{unparse(sl.value)}[7:]" if sl is not None else "", expect="offset equals")
+    # R7: the local '#' table is filled for explicit targets only
+    f = tr.func("ResolveAnchorIds.apply")
+    loop = find_node(f, lambda n: isinstance(n, ast.For) and "nametypes" in unparse(n.iter))
+    guard = None
+    if loop is not None:
+        guard = next((x for x in loop.body if isinstance(x, ast.If) and isinstance(x.body[0], ast.Continue) and isinstance(x.test, ast.UnaryOp)), None)
+    add("c12-anchor-table-guard-dropped", "C12.R7", tr, guard, "pass", expect="only for explicit targets")
+    add("c12-anchor-table-guard-inverted", "C12.R7", tr, guard.test if guard is not None else None, unparse(guard.test.operand) if guard is not None else "", expect="FALSE")
+    add("c12-anchor-table-from-nameids", "C12.R7", tr, loop.iter if loop is not None else None, "self.document.nameids.items()", expect="only for explicit targets")
+    # R3: log_warning emits unless the target is nitpick-ignored
+    f = rf.func("MystReferenceResolver.log_warning")
+    body = [x for x in f.node.body if not (isinstance(x, ast.Expr) and isinstance(x.value, ast.Constant))]
+    if body:
+        first = body[0]
+        seg = ast.get_source_segment(rf.src, first)
+        ind = indent_of(f, first)
+        add("c12-warning-memoised-suppression", "C12.R3", rf, first, f'if target in getattr(self, "_seen_ignored", ()):\n{ind}    return\n{ind}' + seg, expect="nitpick_ignore match")
+        add("c12-warning-needs-target", "C12.R3", rf, first, f"if not target:\n{ind}    return\n{ind}" + seg, expect="nitpick_ignore match")
+    em = _stmt_of(f, lambda n: isinstance(n, ast.Expr) and isinstance(n.value, ast.Call) and isinstance(n.value.func, ast.Attribute) and n.value.func.attr == "warning" and any(k.arg == "subtype" for k in n.value.keywords))
+    if em is not None:
+        seg = ast.get_source_segment(rf.src, em)
+        add("c12-warning-only-when-nitpicky", "C12.R3", rf, em, "if self.config.nitpicky:\n" + indent_of(f, em) + "    " + seg, expect="nitpick_ignore match")
+    else:
+        out.append(("c12-warning-only-when-nitpicky", "emission statement not found"))
     return out
